@@ -185,7 +185,7 @@ def check(ctx):
             shp = Q.arg(ctx, us[0], "shape")
             oks = True if shp == ("attr", Q.sub(CHK, 0), "shape") or shp == ("attr", Q.sub(CHK, 1), "shape") else None
             v = p.value
-            okr = v[0] == "list" and len(v[1]) == 1 and v[1][0][0] == "star" and v[1][0][1][0] == "comp" and v[1][0][1][2] == us[0]
+            okr = Q.grown(v) is not None and (v[0] == "comp" or len(v[1]) == 1) and Q.grown(v)[2] == us[0]
             ctx.check("R4", EW + "|one-index-set-per-size", True if okr else None, "the result holds one unravelled index set per size", fn=EW)
         ctx.check("R4", EW + "|single-centre-result", ok0, "element 0 of the single-centre query is used", bad="the wrong element of the query result is used", fn=EW)
         ctx.check("R4", EW + "|unravel-shape", oks, "indices are unravelled to the shape of the input coordinates", fn=EW)
